@@ -1,7 +1,7 @@
 (* C16 - non-vacuity and sanity runs of the executable model *)
 From Coq Require Import ZArith QArith List Bool Lia.
 Import ListNotations.
-From GV Require Import Common.Wire C16.Model C16.Lemmas.
+From GV Require Import Common.Wire C16.Model C16.Lemmas C16.Lemmas2.
 Open Scope Q_scope.
 
 (* reference: a 2 x 3 x 2 cube; source: a 3 x 2 image whose axis 0 is reference axis 1 and whose axis 1 is
@@ -103,3 +103,38 @@ Example partial_link_mask :
 Proof. vm_compute. reflexivity. Qed.
 
 Eval vm_compute in (run_cached W0 empty_state [req 0 (WAttr 0); req 1 (WAttr 0); req 1 (WMask 0)]).
+
+(* ---------- round 4: the caller's objects ---------- *)
+(* the caller keeps ONE bounds list for the cube W0 and updates it in place (slice 0 -> slice 1, then the y range) *)
+Definition H0 : heap := mkHeap (fun _ => [BScalar 0; BRange 0 2 3; BRange 0 1 2]) (fun a => a).
+Definition hreq0 : hrequest := mkHReq 1 0 0 (HAttr 0) true (Some 7%nat).
+Definition hist0 : list hop :=
+  [HReq hreq0; HSetBound 0 0 (BScalar 1); HReq hreq0; HSetBound 0 1 (BRange 1 2 2); HReq hreq0].
+(* the hypotheses of glue_keys_transparent are met by a history that really changes the list in place and really hits the cache *)
+Example hist0_no_state_change : no_state_change hist0.
+Proof. intros o [Ho|[Ho|[Ho|[Ho|[Ho|[]]]]]]; subst o; simpl; intros F; exact F. Qed.
+Example hist0_results :
+  run_hist glue_policy W0 H0 empty_hstate hist0 =
+  [OkArr [3; 2]%nat [None; Some 11; None; Some 13; None; Some 15]%Z;
+   OkArr [3; 2]%nat [None; Some 11; None; Some 13; None; Some 15]%Z;
+   OkArr [2; 2]%nat [None; Some 13; None; Some 15]%Z].
+Proof. vm_compute. reflexivity. Qed.
+Example hist0_transparent : run_hist glue_policy W0 H0 empty_hstate hist0 = plain_hist W0 H0 hist0.
+Proof. apply glue_keys_transparent; [exact W0_wf|intros a a' E; exact E|exact hist0_no_state_change]. Qed.
+(* the stored key is a private list: after the first request it still says "slice: any scalar, y: 0..2" whatever the caller's list holds *)
+Example stored_key_is_a_value :
+  match fst (snd (hstep glue_policy W0 H0 empty_hstate hreq0) 7%nat) with
+  | Some a => ha_key a = KVal [CAny; CB (BRange 0 2 3); CB (BRange 0 1 2)]
+  | None => False
+  end.
+Proof. vm_compute. reflexivity. Qed.
+(* with ranged bounds only, "return the bounds as they are" stores the caller's list, and the third result is stale *)
+Definition H0r : heap := mkHeap (fun _ => [BRange 0 0 1; BRange 0 2 3; BRange 0 1 2]) (fun a => a).
+Definition hist0r : list hop := [HReq hreq0; HSetBound 0 1 (BRange 1 2 2); HReq hreq0].
+Example returned_list_is_a_reference :
+  match fst (snd (hstep return_bounds_policy W0 H0r empty_hstate hreq0) 7%nat) with Some a => ha_key a = KRef 0 | None => False end.
+Proof. vm_compute. reflexivity. Qed.
+Example returned_list_goes_stale :
+  nth 1 (run_hist return_bounds_policy W0 H0r empty_hstate hist0r) (Err 0) = OkArr [1; 3; 2]%nat [None; Some 11; None; Some 13; None; Some 15]%Z /\
+  nth 1 (plain_hist W0 H0r hist0r) (Err 0) = OkArr [1; 2; 2]%nat [None; Some 13; None; Some 15]%Z.
+Proof. split; vm_compute; reflexivity. Qed.
